@@ -35,9 +35,10 @@ const (
 var kindNames = map[kind]string{kInt: "int", kStr: "string", kBool: "bool", kFloat: "float", kListInt: "list<int>", kListStr: "list<string>", kEList: "list<int>", kRec: "map<string,?>", kOptInt: "int|null", kNull: "null"}
 
 type gvar struct {
-	name string
-	k    kind
-	used *bool
+	name  string
+	k     kind
+	used  *bool
+	param bool // a template parameter
 }
 
 type genv struct {
@@ -91,14 +92,36 @@ type progOpts struct {
 	depth      int
 	noMsg      bool
 	noLog      bool
-	illTyped   int // percent chance of replacing an expression by one of a random kind
+	illTyped   int  // percent chance of replacing an expression by one of a random kind
 	jsSafe     bool // stay inside the subset both backends define (C04)
 	taint      bool
 	directives bool
 	nastyLits  bool // string literals and map keys with quotes, backslashes, line terminators, </script>, astral runes (C14)
 	core       bool // C04 core subset: no floats, small integers, multiplication mostly by a small literal, range() only as a loop list
 	useIj      bool // some expressions read $ij.n (int) and $ij.s (string)
+	// hooks of the ill-typed/erroring stream (C06); nil = the valid stream, and
+	// no PRNG draw is added, so the other properties' streams are unchanged
+	exprHook  func(g *progGen, env genv, k kind, d int) (string, bool) // may replace any expression
+	dirHook   func(g *progGen) (string, bool)                          // may replace a print's directive suffix
+	spread    bool                                                     // C19: put (most) commands on lines of their own, so that line numbers discriminate
+	allHeader bool                                                     // C19: every template declares its params in the header (no soydoc comment in the file)
+	msgPO     bool                                                     // C11: messages come from progMsgHook (PO-representable shapes), and are frequent
+	scope     bool                                                     // C02: small name pool (shadowing), scope probes, aliases, attribute-style params, more data="all"/data="$e"
+	// options added for C09 (all off by default; none consumes randomness when off)
+	ij          bool                  // some prints read the injected data: {$ij.s}, {$ij.n}
+	customFunc  string                // name of a user-installed int -> int function to call now and then
+	onTemplates func(ts []*gtemplate) // receives the generated templates (params of every template, not only the entry)
+	// C07
+	allParams    bool     // data sets supply optional params too
+	totalCalls   bool     // every call passes every callee param (optional ones too); no data="$expr"
+	maxTemplates int      // > 0: bundles of 1..maxTemplates templates instead of 1..4
+	shapes       bool     // print-directive chains of every length 0..8 (marker / cancelling / non-cancelling mixes), list literals of 0..8 items
+	chainExtra   []string // user-installed non-cancelling directives usable in chains, e.g. "|bang"
 }
+
+// progMsgHook, when set (by a property's tagged file) and progOpts.msgPO is on,
+// generates the {msg} commands; the default generator below is used otherwise.
+var progMsgHook func(g *progGen, env genv, d int) string
 
 type progGen struct {
 	topList bool // the expression being generated is the list of a foreach (core: range() allowed only there)
@@ -109,9 +132,22 @@ type progGen struct {
 	ctr   int
 	files []srcFile
 	feats map[string]int
+	alias map[string]map[string]bool // namespace of the caller's file -> namespaces it aliases (scope option)
 }
 
 func (g *progGen) feat(s string) { g.feats[s]++ }
+
+// nl is a line break between commands when the spread option is on (a text run of white space
+// containing a newline is dropped by the scanner, so the program is the same program).
+func (g *progGen) nl() string {
+	if !g.o.spread {
+		return ""
+	}
+	if g.r.Chance(85) {
+		return "\n"
+	}
+	return ""
+}
 func (g *progGen) pk(ks ...kind) kind { return ks[g.r.Intn(len(ks))] }
 
 func (g *progGen) fresh(prefix string) string {
@@ -201,6 +237,11 @@ func (g *progGen) expr(env genv, k kind, d int) string {
 		}
 		return "$ij.s"
 	}
+	if g.o.exprHook != nil {
+		if s, ok := g.o.exprHook(g, env, k, d); ok {
+			return s
+		}
+	}
 	vars := env.ofKind(k)
 	if d <= 0 || g.r.Chance(30) {
 		if len(vars) > 0 && g.r.Chance(70) {
@@ -216,6 +257,13 @@ func (g *progGen) expr(env genv, k kind, d int) string {
 		case kFloat:
 			return g.floatLit()
 		case kListInt:
+			if g.o.shapes {
+				items := []string{g.intLit()}
+				for n := g.r.Intn(8); n > 0; n-- {
+					items = append(items, g.intLit())
+				}
+				return "[" + strings.Join(items, ", ") + "]"
+			}
 			return "[" + g.intLit() + ", " + g.intLit() + ", " + g.intLit() + "]"
 		case kListStr:
 			return "[" + g.strLit() + ", " + g.strLit() + "]"
@@ -238,6 +286,14 @@ func (g *progGen) expr(env genv, k kind, d int) string {
 	e := func(k2 kind) string { return g.expr(env, k2, d-1) }
 	switch k {
 	case kInt:
+		if g.o.customFunc != "" && g.r.Chance(12) {
+			g.feat("custom-func")
+			return g.o.customFunc + "(" + e(kInt) + ")"
+		}
+		if g.o.ij && g.r.Chance(8) {
+			g.feat("ij")
+			return "$ij.n"
+		}
 		switch g.r.Intn(16) {
 		case 0, 1:
 			g.feat("add")
@@ -299,6 +355,10 @@ func (g *progGen) expr(env genv, k kind, d int) string {
 			return g.intLit()
 		}
 	case kStr:
+		if g.o.ij && g.r.Chance(10) {
+			g.feat("ij")
+			return g.r.Pick([]string{"$ij.s", "$ij.rec.b", "$ij?.s"})
+		}
 		switch g.r.Intn(8) {
 		case 0, 1:
 			g.feat("concat")
@@ -467,7 +527,36 @@ func (r0 *progGen) printable() []kind {
 
 var rawTexts = []string{"text ", "a b", "<p>", "</p>", " - ", "x", "  two  spaces ", "&amp;", "\n", "line1\n  line2", "é", "\"q\"", "'", "1 < 2"}
 
+// chain: a print-directive list of 0..8 entries.  The parser builds the list
+// with append, so its spare capacity depends on the length; whether a backend
+// appends to it depends on whether a directive cancels autoescaping and on the
+// marker directives (id, noAutoescape) being filtered out.
+func (g *progGen) chain() string {
+	n := g.r.Intn(9)
+	kind := g.r.Intn(4)
+	nonc := append([]string{"|truncate:9", "|truncate:20,false", "|truncate:6,true", "|truncate:40"}, g.o.chainExtra...)
+	markers := []string{"|id", "|noAutoescape"}
+	canc := []string{"|escapeHtml", "|escapeUri", "|escapeJsString", "|json", "|changeNewlineToBr", "|insertWordBreaks:4"}
+	var sb strings.Builder
+	for i := 0; i < n; i++ {
+		switch {
+		case kind == 1 && g.r.Chance(30):
+			sb.WriteString(g.r.Pick(markers))
+		case kind == 2 && g.r.Chance(35), kind == 3:
+			sb.WriteString(g.r.Pick(canc))
+		default:
+			sb.WriteString(g.r.Pick(nonc))
+		}
+	}
+	g.feat(fmt.Sprintf("chain-len:%d", n))
+	g.feat([]string{"chain:non-cancelling", "chain:with-markers", "chain:mixed", "chain:cancelling"}[kind])
+	return sb.String()
+}
+
 func (g *progGen) directive() string {
+	if g.o.shapes {
+		return g.chain()
+	}
 	if !g.o.directives || !g.r.Chance(25) {
 		return ""
 	}
@@ -482,6 +571,14 @@ func (g *progGen) block(env genv, d int, n int) string {
 	var sb strings.Builder
 	var pendingLets []gvar
 	for i := 0; i < n; i++ {
+		if g.o.msgPO && g.r.Chance(30) {
+			sb.WriteString(g.msg(env, d))
+			continue
+		}
+		if g.o.scope && d > 0 && g.r.Chance(18) {
+			sb.WriteString(g.scopeProbe(env, d))
+			continue
+		}
 		c := g.r.Intn(24)
 		switch {
 		case c < 4:
@@ -495,6 +592,11 @@ func (g *progGen) block(env genv, d int, n int) string {
 			if k == kStr {
 				dir = g.directive()
 			}
+			if g.o.dirHook != nil {
+				if s, ok := g.o.dirHook(g); ok {
+					dir = s
+				}
+			}
 			if g.r.Chance(30) {
 				sb.WriteString("{print " + ex + dir + "}")
 			} else {
@@ -502,28 +604,28 @@ func (g *progGen) block(env genv, d int, n int) string {
 			}
 		case c < 11 && d > 0:
 			g.feat("if")
-			sb.WriteString("{if " + g.expr(env, kBool, d-1) + "}" + g.block(env, d-1, 1+g.r.Intn(2)))
+			sb.WriteString("{if " + g.expr(env, kBool, d-1) + "}" + g.nl() + g.block(env, d-1, 1+g.r.Intn(2)))
 			for g.r.Chance(30) {
 				g.feat("elseif")
-				sb.WriteString("{elseif " + g.expr(env, kBool, d-1) + "}" + g.block(env, d-1, 1))
+				sb.WriteString("{elseif " + g.expr(env, kBool, d-1) + "}" + g.nl() + g.block(env, d-1, 1))
 			}
 			if g.r.Bool() {
-				sb.WriteString("{else}" + g.block(env, d-1, 1))
+				sb.WriteString("{else}" + g.nl() + g.block(env, d-1, 1))
 			}
 			sb.WriteString("{/if}")
 		case c < 12 && d > 0:
 			g.feat("switch")
 			k := g.pk(kInt, kStr)
-			sb.WriteString("{switch " + g.expr(env, k, d-1) + "}")
+			sb.WriteString("{switch " + g.expr(env, k, d-1) + "}" + g.nl())
 			for j := 0; j < 1+g.r.Intn(3); j++ {
 				sb.WriteString("{case " + g.expr(env, k, 0))
 				if g.r.Chance(30) {
 					sb.WriteString(", " + g.expr(env, k, 0))
 				}
-				sb.WriteString("}" + g.block(env, d-1, 1))
+				sb.WriteString("}" + g.nl() + g.block(env, d-1, 1))
 			}
 			if g.r.Bool() {
-				sb.WriteString("{default}" + g.block(env, d-1, 1))
+				sb.WriteString("{default}" + g.nl() + g.block(env, d-1, 1))
 			}
 			sb.WriteString("{/switch}")
 		case c < 14 && d > 0:
@@ -537,19 +639,23 @@ func (g *progGen) block(env genv, d int, n int) string {
 			if g.r.Chance(20) {
 				v.name = g.r.Pick([]string{"i", "x", "a"}) // shadowing
 			}
+			if g.o.scope && g.r.Chance(40) {
+				v.name = g.r.Pick(scopeNames)
+				g.noteShadow(env, v.name, "loop")
+			}
 			g.topList = true
-			sb.WriteString("{foreach $" + v.name + " in " + g.expr(env, k, d-1) + "}")
+			sb.WriteString("{foreach $" + v.name + " in " + g.expr(env, k, d-1) + "}" + g.nl())
 			sb.WriteString(g.block(env.withLoop(v), d-1, 1+g.r.Intn(2)))
 			if k == kEList || g.r.Chance(20) {
 				g.feat("ifempty")
-				sb.WriteString("{ifempty}" + g.block(env, d-1, 1))
+				sb.WriteString("{ifempty}" + g.nl() + g.block(env, d-1, 1))
 			}
 			sb.WriteString("{/foreach}")
 		case c < 15 && d > 0:
 			g.feat("for-range")
 			v := gvar{name: "r" + g.fresh(""), k: kInt}
 			args := g.r.Pick([]string{"3", "1, 4", "0, 6, 2", "0"})
-			sb.WriteString("{for $" + v.name + " in range(" + args + ")}" + g.block(env.withLoop(v), d-1, 1) + "{/for}")
+			sb.WriteString("{for $" + v.name + " in range(" + args + ")}" + g.nl() + g.block(env.withLoop(v), d-1, 1) + "{/for}")
 		case c < 17:
 			g.feat("let")
 			k := g.printable()[g.r.Intn(6)]
@@ -560,6 +666,14 @@ func (g *progGen) block(env genv, d int, n int) string {
 			v := gvar{name: g.r.Pick([]string{"v", "w", "x", "a"}) + g.fresh(""), k: k, used: &used}
 			if g.r.Chance(15) {
 				v.name = g.r.Pick([]string{"x", "a", "i"}) // shadow something
+			}
+			if g.o.scope && g.r.Chance(45) {
+				v.name = g.r.Pick(scopeNames)
+				if outer := env.visible(v.name); outer != nil && printableKind(outer.k) && g.r.Chance(60) {
+					g.feat("use-then-shadow")
+					sb.WriteString("{" + g.use(*outer) + "}") // the outer variable is used, then shadowed for the rest of the block
+				}
+				g.noteShadow(env, v.name, "let")
 			}
 			for _, pl := range pendingLets {
 				if pl.name == v.name && !*pl.used {
@@ -574,7 +688,7 @@ func (g *progGen) block(env genv, d int, n int) string {
 			g.feat("let-content")
 			used := false
 			v := gvar{name: "c" + g.fresh(""), k: kStr, used: &used}
-			sb.WriteString("{let $" + v.name + "}" + g.block(env, d-1, 1+g.r.Intn(2)) + "{/let}")
+			sb.WriteString("{let $" + v.name + "}" + g.nl() + g.block(env, d-1, 1+g.r.Intn(2)) + "{/let}")
 			env = env.with(v)
 			pendingLets = append(pendingLets, v)
 		case c < 20 && d > 0:
@@ -593,10 +707,11 @@ func (g *progGen) block(env genv, d int, n int) string {
 			sb.WriteString(g.msg(env, d))
 		case c < 24 && !g.o.noLog && d > 0:
 			g.feat("log")
-			sb.WriteString("{log}" + g.block(env, d-1, 1) + "{/log}")
+			sb.WriteString("{log}" + g.nl() + g.block(env, d-1, 1) + "{/log}")
 		default:
 			sb.WriteString(g.r.Pick(rawTexts))
 		}
+		sb.WriteString(g.nl())
 	}
 	for _, v := range pendingLets {
 		if !*v.used {
@@ -624,6 +739,9 @@ func (g *progGen) block(env genv, d int, n int) string {
 
 func (g *progGen) msg(env genv, d int) string {
 	g.feat("msg")
+	if g.o.msgPO && progMsgHook != nil {
+		return progMsgHook(g, env, d)
+	}
 	var sb strings.Builder
 	sb.WriteString("{msg desc=\"" + g.r.Pick([]string{"d", "a message", ""}) + "\"")
 	if g.r.Chance(20) {
@@ -683,6 +801,22 @@ func (g *progGen) call(env genv, d int) string {
 		name = "." + callee.short
 		g.feat("call-relative")
 	}
+	if g.o.scope {
+		if name[0] != '.' {
+			if g.alias[caller.ns][callee.ns] && g.r.Chance(70) {
+				name = callee.ns[strings.LastIndex(callee.ns, ".")+1:] + "." + callee.short
+				g.feat("call-aliased")
+			} else {
+				g.feat("call-fully-qualified")
+			}
+		}
+		if callee.file != caller.file {
+			g.feat("call-other-file")
+		}
+		if callee.ns != caller.ns {
+			g.feat("call-other-namespace")
+		}
+	}
 	// data="all" possible when every required callee param is a caller param of the same kind
 	allOK := true
 	for _, p := range callee.params {
@@ -706,33 +840,76 @@ func (g *progGen) call(env genv, d int) string {
 		}
 	}
 	var sb strings.Builder
-	sb.WriteString("{call " + name)
+	if g.o.scope && g.r.Chance(12) {
+		g.feat("call-name-attr")
+		sb.WriteString("{call name=\"" + name + "\"")
+	} else {
+		sb.WriteString("{call " + name)
+	}
 	passAll := false
+	allP, exprP, overrideP := 50, 60, 25
+	if g.o.scope {
+		allP, exprP, overrideP = 75, 80, 50
+	}
 	switch {
-	case allOK && g.r.Chance(50):
+	case allOK && g.r.Chance(allP):
 		g.feat("call-data-all")
 		sb.WriteString(" data=\"all\"")
 		passAll = true
+		if g.o.scope {
+			for _, p := range callee.params {
+				if v := env.visible(p.name); v != nil && !v.param {
+					g.feat("call-data-all-under-shadow") // the callee must see the caller's PARAM, not this let/loop variable
+					break
+				}
+			}
+			if len(env.loops) > 0 {
+				g.feat("call-data-all-in-loop")
+			}
+		}
 		for _, p := range callee.params {
 			for _, q := range env.vars {
-				if q.name == p.name && q.used != nil {
-					*q.used = true
+				if q.name == p.name && q.used != nil && q.param {
+					*q.used = true // forwarded by data="all" (only a PARAM is; a let of that name is not)
 				}
 			}
 		}
-	case recOK && g.r.Chance(60):
+	case recOK && !g.o.totalCalls && g.r.Chance(exprP):
 		g.feat("call-data-expr")
 		rv := env.ofKind(kRec)
 		sb.WriteString(" data=\"" + g.use(rv[g.r.Intn(len(rv))]) + "\"")
 		passAll = true
+	case g.o.scope && recLitOK(callee) && g.r.Chance(50):
+		g.feat("call-data-expr")
+		g.feat("call-data-map-literal")
+		sb.WriteString(" data=\"['a': " + g.atomInt(env, 0) + ", 'b': 'lit', 'c': [7, " + g.atomInt(env, 0) + "]]\"")
+		passAll = true
 	}
 	var params []string
 	for _, p := range callee.params {
-		if passAll && !g.r.Chance(25) {
-			continue
+		if g.o.totalCalls {
+			covered := false
+			for _, q := range caller.params {
+				if q.name == p.name && q.k == p.k {
+					covered = true
+				}
+			}
+			if passAll && covered && !g.r.Chance(25) {
+				continue
+			}
+		} else {
+			if passAll && !g.r.Chance(overrideP) {
+				continue
+			}
+			if p.optional && g.r.Chance(50) {
+				if g.o.scope && !passAll && env.visible(p.name) != nil {
+					g.feat("optional-not-passed-while-caller-binds-it") // the callee must see it undefined
+				}
+				continue
+			}
 		}
-		if p.optional && g.r.Chance(50) {
-			continue
+		if g.o.scope && passAll {
+			g.feat("param-overrides-data")
 		}
 		k := p.k
 		if callee.rec && p.name == "n" {
@@ -741,15 +918,26 @@ func (g *progGen) call(env genv, d int) string {
 		}
 		if k == kStr && g.r.Chance(40) && d > 0 {
 			g.feat("param-content")
-			params = append(params, "{param "+p.name+"}"+g.block(env, d-1, 1)+"{/param}")
+			if g.o.scope && g.r.Chance(25) {
+				g.feat("param-attr-syntax")
+				params = append(params, "{param key=\""+p.name+"\"}"+g.nl()+g.block(env, d-1, 1)+"{/param}"+g.nl())
+			} else {
+				params = append(params, "{param "+p.name+"}"+g.nl()+g.block(env, d-1, 1)+"{/param}"+g.nl())
+			}
 		} else {
-			params = append(params, "{param "+p.name+": "+g.expr(env, k, d-1)+" /}")
+			ex := g.expr(env, k, d-1)
+			if g.o.scope && g.r.Chance(25) && !strings.ContainsAny(ex, "\"\\\n") {
+				g.feat("param-attr-syntax")
+				params = append(params, "{param key=\""+p.name+"\" value=\""+ex+"\" /}"+g.nl())
+			} else {
+				params = append(params, "{param "+p.name+": "+ex+" /}"+g.nl())
+			}
 		}
 	}
 	if len(params) == 0 {
 		sb.WriteString(" /}")
 	} else {
-		sb.WriteString("}" + strings.Join(params, "") + "{/call}")
+		sb.WriteString("}" + g.nl() + strings.Join(params, "") + "{/call}")
 	}
 	return sb.String()
 }
@@ -775,19 +963,40 @@ func (r *progGen) unusedFix(t *gtemplate, used map[string]*bool) string {
 func genBundle(r *hx.Rand, o progOpts) (files []srcFile, entry string, dataSets []data.Map, feats map[string]int) {
 	g := &progGen{r: r, o: o, feats: map[string]int{}}
 	nT := 1 + r.Intn(4)
+	if o.maxTemplates > 0 {
+		nT = 1 + r.Intn(o.maxTemplates)
+	}
 	nss := []string{"ns.one", "ns.two.deep", "other"}[:1+r.Intn(3)]
 	paramPool := []gparam{{"a", kInt, false}, {"b", kStr, false}, {"c", kListInt, false}, {"x", kInt, false}, {"s", kStr, false}, {"flag", kBool, false},
 		{"f", kFloat, false}, {"rec", kRec, false}, {"opt", kOptInt, true}, {"names", kListStr, false}, {"el", kEList, false}, {"i", kInt, false}}
+	if o.scope {
+		paramPool = append(paramPool, gparam{"v", kOptInt, true}, gparam{"w", kOptInt, true})
+		if r.Chance(50) {
+			nT++
+		}
+	}
+	recPool := []gparam{{"a", kInt, false}, {"b", kStr, false}, {"c", kListInt, false}, {"opt", kOptInt, true}, {"v", kOptInt, true}}
 	for i := 0; i < nT; i++ {
 		t := &gtemplate{short: fmt.Sprintf("t%d", i), header: r.Chance(30)}
+		if o.allHeader {
+			t.header = true
+		}
 		t.ns = nss[r.Intn(len(nss))]
 		if i == 0 {
 			t.ns = nss[0]
 		}
+		t.file = t.ns
+		if o.scope && r.Chance(30) {
+			t.file = t.ns + "#2" // a second file of the same namespace
+		}
 		np := 1 + r.Intn(5)
 		seen := map[string]bool{}
+		pool := paramPool
+		if o.scope && i > 0 && r.Chance(40) {
+			pool = recPool // callable with data="$rec" / a map literal
+		}
 		for j := 0; j < np; j++ {
-			p := paramPool[r.Intn(len(paramPool))]
+			p := pool[r.Intn(len(pool))]
 			if o.core && p.k == kFloat {
 				continue
 			}
@@ -802,8 +1011,25 @@ func genBundle(r *hx.Rand, o progOpts) (files []srcFile, entry string, dataSets 
 		g.tmpls = append(g.tmpls, t)
 	}
 	if r.Chance(35) {
-		g.tmpls = append(g.tmpls, &gtemplate{short: "rec", ns: nss[0], params: []gparam{{"n", kInt, false}}, rec: true,
+		g.tmpls = append(g.tmpls, &gtemplate{short: "rec", ns: nss[0], file: nss[0], params: []gparam{{"n", kInt, false}}, rec: true,
 			body: "{if $n > 0}{$n}{sp}{call .rec}{param n: $n - 1 /}{/call}{/if}"})
+		if o.scope && r.Chance(50) {
+			// the explicit param overrides the forwarded one at every level; the let and the loop variable named n must not reach the callee
+			g.tmpls[len(g.tmpls)-1].body = "{if $n > 0}{$n}{sp}{let $m: $n - 1 /}{foreach $n in [5]}{call .rec data=\"all\"}{param n: $m /}{/call}{/foreach}{/if}"
+			g.feats["recursion-data-all-override"]++
+		}
+		g.feats["recursion"]++
+	}
+	g.alias = map[string]map[string]bool{}
+	if o.scope {
+		for _, ns := range nss {
+			g.alias[ns] = map[string]bool{}
+			for _, other := range nss {
+				if other != ns && strings.Contains(other, ".") && r.Chance(60) {
+					g.alias[ns][other] = true
+				}
+			}
+		}
 	}
 	for i, t := range g.tmpls {
 		if t.rec {
@@ -815,7 +1041,7 @@ func genBundle(r *hx.Rand, o progOpts) (files []srcFile, entry string, dataSets 
 		for _, p := range t.params {
 			u := false
 			used[p.name] = &u
-			env = env.with(gvar{name: p.name, k: p.k, used: &u})
+			env = env.with(gvar{name: p.name, k: p.k, used: &u, param: true})
 		}
 		body := g.block(env, o.depth, 2+r.Intn(4))
 		t.body = g.unusedFix(t, used) + body // at the start: a later {let} may shadow the param
@@ -827,12 +1053,26 @@ func genBundle(r *hx.Rand, o progOpts) (files []srcFile, entry string, dataSets 
 			nsAttr[ns] = r.Pick([]string{"true", "false", "contextual"})
 		}
 	}
-	for fi, ns := range nss {
+	type fileSpec struct{ ns, file string }
+	var fileList []fileSpec
+	for _, ns := range nss {
+		fileList = append(fileList, fileSpec{ns, ns})
+		if o.scope {
+			fileList = append(fileList, fileSpec{ns, ns + "#2"})
+		}
+	}
+	for fi, fs := range fileList {
+		ns := fs.ns
 		var sb strings.Builder
 		sb.WriteString("{namespace " + ns + attrSrcG(nsAttr[ns]) + "}\n\n")
+		for _, other := range nss {
+			if g.alias[ns][other] {
+				sb.WriteString("{alias " + other + "}\n")
+			}
+		}
 		any := false
 		for _, t := range g.tmpls {
-			if t.ns != ns {
+			if t.ns != ns || t.file != fs.file {
 				continue
 			}
 			any = true
@@ -863,6 +1103,9 @@ func genBundle(r *hx.Rand, o progOpts) (files []srcFile, entry string, dataSets 
 		}
 	}
 	entry = g.tmpls[0].full()
+	if o.onTemplates != nil {
+		o.onTemplates(g.tmpls)
+	}
 	for k := 0; k < 2; k++ {
 		dataSets = append(dataSets, genData(r, g.tmpls[0].params, o))
 	}
@@ -915,10 +1158,117 @@ func genValue(r *hx.Rand, k kind, o progOpts) data.Value {
 func genData(r *hx.Rand, params []gparam, o progOpts) data.Map {
 	m := data.Map{}
 	for _, p := range params {
-		if p.optional && r.Chance(40) {
+		if p.optional && !o.allParams && r.Chance(40) {
 			continue
 		}
 		m[p.name] = genValue(r, p.k, o)
 	}
 	return m
+}
+
+// ---- scope option (C02) ----
+
+// scopeNames is the small pool that let and loop variables are drawn from: it contains
+// the parameter names, so that lets and loop variables shadow params and each other.
+var scopeNames = []string{"a", "b", "x", "s", "i", "v", "w", "opt", "f", "n"}
+
+func printableKind(k kind) bool { return k == kInt || k == kStr || k == kBool || k == kFloat }
+
+// visible returns the innermost variable of that name.
+func (e genv) visible(name string) *gvar {
+	for i := len(e.vars) - 1; i >= 0; i-- {
+		if e.vars[i].name == name {
+			v := e.vars[i]
+			return &v
+		}
+	}
+	return nil
+}
+
+func recLitOK(callee *gtemplate) bool {
+	for _, p := range callee.params {
+		if !(p.name == "a" && p.k == kInt || p.name == "b" && p.k == kStr || p.name == "c" && p.k == kListInt || p.optional) {
+			return false
+		}
+	}
+	return true
+}
+
+func (g *progGen) noteShadow(env genv, name, by string) {
+	if v := env.visible(name); v != nil {
+		if v.param {
+			g.feat(by + "-shadows-param")
+		} else {
+			g.feat(by + "-shadows-variable")
+		}
+	}
+}
+
+// scopeProbe emits a fragment whose output depends on where a binding is visible.
+func (g *progGen) scopeProbe(env genv, d int) string {
+	var pr []gvar
+	for _, k := range []kind{kInt, kStr, kBool, kFloat} {
+		pr = append(pr, env.ofKind(k)...)
+	}
+	otherExpr := func(v gvar) (kind, string) {
+		k := g.pk(kInt, kStr)
+		return k, g.expr(env, k, 0)
+	}
+	switch c := g.r.Intn(5); {
+	case c == 0 && len(pr) > 0:
+		// outer value, a block that shadows it, outer value again
+		g.feat("probe-let-in-block")
+		v := pr[g.r.Intn(len(pr))]
+		k2, ex := otherExpr(v)
+		inner := env.with(gvar{name: v.name, k: k2})
+		cond := "true"
+		if g.r.Chance(30) {
+			cond = g.expr(env, kBool, 0)
+		}
+		return "[" + "{" + g.use(v) + "}{if " + cond + "}{let $" + v.name + ": " + ex + " /}{$" + v.name + "}" + g.block(inner, d-1, 1) + "{/if}{$" + v.name + "}]"
+	case c == 1 && len(pr) > 0:
+		// a loop variable shadows it in the body only
+		g.feat("probe-loop-shadow")
+		v := pr[g.r.Intn(len(pr))]
+		inner := env.withLoop(gvar{name: v.name, k: kInt})
+		return "[" + "{" + g.use(v) + "}{foreach $" + v.name + " in [" + g.intLit() + ", " + g.intLit() + "]}{$" + v.name + "}:{index($" + v.name + ")}" + g.block(inner, d-1, 1) + "{/foreach}{$" + v.name + "}]"
+	case c == 2 && len(env.loops) > 0:
+		// helpers of an OUTER loop variable inside an inner loop
+		g.feat("probe-outer-loop-helpers")
+		o := env.loops[g.r.Intn(len(env.loops))]
+		q := "q" + g.fresh("")
+		inner := env.withLoop(gvar{name: q, k: kInt})
+		return "{foreach $" + q + " in [1, 2]}{index($" + o + ")}{isFirst($" + o + ") ? 'F' : ''}{isLast($" + o + ") ? 'L' : ''}/{index($" + q + ")}{isLast($" + q + ") ? 'l' : ''}" + g.block(inner, d-1, 1) + "{/foreach}"
+	case c == 3:
+		// let content, and a let whose value uses the outer variable of the same name
+		if len(pr) > 0 {
+			v := pr[g.r.Intn(len(pr))]
+			if v.k == kInt || v.k == kStr {
+				g.feat("probe-let-from-same-name")
+				return "{if true}{let $" + v.name + ": " + g.use(v) + " + " + g.expr(env, v.k, 0) + " /}{$" + v.name + "}{/if}{$" + v.name + "}"
+			}
+		}
+		fallthrough
+	default:
+		// a let that shadows a param, then a call: data="all" must forward the param
+		g.feat("probe-let-then-call")
+		caller := g.tmpls[g.cur]
+		var cand []gparam
+		for _, p := range caller.params {
+			if printableKind(p.k) {
+				cand = append(cand, p)
+			}
+		}
+		if len(cand) == 0 {
+			return g.call(env, d)
+		}
+		p := cand[g.r.Intn(len(cand))]
+		k2, ex := otherExpr(gvar{})
+		inner := env.with(gvar{name: p.name, k: k2})
+		wrapL, wrapR := "{if true}", "{/if}"
+		if g.r.Chance(40) {
+			wrapL, wrapR = "{foreach $z"+g.fresh("")+" in [1, 2]}", "{/foreach}"
+		}
+		return wrapL + "{let $" + p.name + ": " + ex + " /}{$" + p.name + "}" + g.call(inner, d) + wrapR
+	}
 }
